@@ -365,10 +365,19 @@ def validate(ctx, recs, tag, chunk=1500):
     return rejects
 
 
+POOL_SEED = 20261003  # the TLC-explored family is a fixed pool (its exact rational arithmetic is known to stay within TLC's
+# 32-bit integers); VERIF_SEED selects the sub-family explored in the quick tier and drives all random larger systems
+
+
 def run(ctx):
     quick = ctx.quick
     rng = np.random.default_rng(ctx.seed)
-    small = gen_small_instances(rng, range(-2, 3) if quick else range(-3, 4), 250 if quick else 2500, 40 if quick else 400)
+    pool = gen_small_instances(np.random.default_rng(POOL_SEED), range(-3, 4), 2500, 400)
+    if quick:
+        pick = np.sort(rng.choice(len(pool), size=min(len(pool), 2200), replace=False))
+        small = [pool[k] for k in pick]
+    else:
+        small = pool
     ctx.bounds = {"small_integer_instances": len(small), "n_small": "2 (all SPD with entries -3..4), 3 and 4 (seeded L*L')",
                   "random_larger_instances": 600 if quick else 6000, "n_large_max": 12}
     res = ctx.tlc("Nnls", CFG_MC.format(rep="TRUE", maxsteps=40), env=insts_file(ctx, small, "insts.json"), tag="MC_Nnls", timeout=1700)
